@@ -34,6 +34,8 @@ META = {
 
 RANDOM_PARAMS = {"rng", "rng_key", "key", "seed", "random_state"}
 FRESH_CTORS = {"default_rng", "ArrayRNG", "RandomState", "Generator"}
+# the torch flow wrappers seed torch's global generator from their seed argument (C20.seed): accepted there only
+NS_DRAWS = {"rand", "randn", "randint", "rand_like", "randn_like", "randperm", "normal", "bernoulli", "multinomial"}
 GLOBAL_DRAWS = {"normal", "uniform", "rand", "randn", "random", "choice", "randint", "shuffle", "permutation", "standard_normal", "seed"}
 
 
@@ -54,6 +56,11 @@ def run(ctx):
             last = d.rsplit(".", 1)[-1]
             is_fresh = last in FRESH_CTORS and not (last == "default_rng" and n.args)  # default_rng(seed) is seeded
             is_global = (d.startswith("np.random.") or d.startswith("numpy.random.") or d.startswith("random.")) and last in GLOBAL_DRAWS
+            # draws from a namespace's process-global generator: xp.rand(...), torch.randn(...), ...
+            ns_draw = last in NS_DRAWS and isinstance(n.func, ast.Attribute) and (
+                (isinstance(n.func.value, ast.Name) and n.func.value.id in ("xp", "torch", "torch_api")) or (isinstance(n.func.value, ast.Attribute) and n.func.value.attr == "xp"))
+            if ns_draw and not f.module.name.startswith("aspire.flows.torch"):
+                is_global = True
             if not (is_fresh or is_global):
                 continue
             n_fresh += 1
@@ -400,6 +407,9 @@ MUTANTS = [
     M("flow key parameter ignored", _JF, "self.key = key\n        self.loc = None", "self.key = jrandom.key(0)\n        self.loc = None", "C20.used"),
     M("torch flow not seeded", "src/aspire/flows/torch/flows.py", "torch.manual_seed(seed)", "pass", ("C20.seed", "C20.used")),
     M("routing sends everything to sample()", "src/aspire/aspire.py", "if k in sampler_init_kwargs and k != \"self\"\n        }", "if False\n        }", "C20.route"),
+]
+MUTANTS += [
+    M("torch rejection sampling from the global generator", _S, "log_u = asarray(\n            np.log(rng.uniform(size=len(self.x))), self.xp, device=self.device\n        )", "log_u = self.xp.log(self.xp.rand(len(self.x)))", ("C20.fresh", "C20.used")),
 ]
 NEUTRALS = [
     M("fallback written as a conditional expression", _B, "self.rng = rng or np.random.default_rng()\n        self._adapative_target_efficiency = False", "self.rng = rng if rng is not None else np.random.default_rng()\n        self._adapative_target_efficiency = False"),
